@@ -2,12 +2,15 @@ package main
 
 import (
 	"encoding/json"
+	"errors"
 	"fmt"
 	"io"
 	"os"
 	"runtime"
 	"sync"
 	"time"
+
+	"go.opentelemetry.io/otel"
 
 	"verif/harness/vgen"
 )
@@ -59,8 +62,9 @@ type Storm struct {
 	Sweep      bool   `json:"sweep"` // unregisterers sweep every pre-registered callback (the F-C16-1 scenario)
 	Tracers    int    `json:"tracers"`
 	Iter       int    `json:"iter"`
-	Installers int    `json:"installers"` // concurrent SetMeterProvider callers
-	Delay      int    `json:"delay_us"`   // installers start after up to this many microseconds
+	Installers int    `json:"installers"`              // concurrent SetMeterProvider callers
+	Delay      int    `json:"delay_us"`                // installers start after up to this many microseconds
+	ErrH       bool   `json:"error_handler,omitempty"` // SetErrorHandler racing Handle through the placeholder
 	WatchdogS  int    `json:"watchdog_s"`
 }
 
@@ -195,6 +199,8 @@ func runSeq(w *world, steps []Step, res *result) {
 	}
 }
 
+var errProbe = errors.New("probe")
+
 // pools shared by the storm goroutines
 type pools struct {
 	mu     sync.Mutex
@@ -328,6 +334,22 @@ func runStorm(w *world, c *Storm, res *result) {
 				w.mu.Unlock()
 			}
 		})
+	}
+	if c.ErrH {
+		pre := otel.GetErrorHandler()
+		spawn(func(r *vgen.Rand) {
+			time.Sleep(time.Duration(r.Intn(c.Delay+1)) * time.Microsecond)
+			otel.SetErrorHandler(otel.ErrorHandlerFunc(func(error) {}))
+		})
+		for g := 0; g < 2; g++ {
+			spawn(func(r *vgen.Rand) {
+				for i := 0; i < c.Iter; i++ {
+					jitter(r)
+					pre.Handle(errProbe)
+					otel.Handle(errProbe)
+				}
+			})
+		}
 	}
 	if c.Tracers > 0 {
 		// Inject / Extract / Fields through the placeholder propagator while SetTextMapPropagator runs
